@@ -22,6 +22,7 @@ type Gen struct {
 	children map[string][]string // documented parent -> functions that name it
 	valueFns []string            // functions with a result
 	typeFns  []string            // functions whose first result is a data type
+	sketch   map[string][]string // tidySketch restricted to functions that exist
 }
 
 func isDataTypeResult(t string) bool {
@@ -52,12 +53,28 @@ func NewGen(sigs []FuncSig) *Gen {
 			}
 		}
 	}
+	g.sketch = map[string][]string{}
+	keep := func(list string) []string {
+		var out []string
+		for _, f := range strings.Fields(list) {
+			if g.by[f] != nil {
+				out = append(out, f)
+			}
+		}
+		return out
+	}
+	for k, v := range tidySketch {
+		if cs := keep(v); len(cs) > 0 {
+			g.sketch[k] = cs
+		}
+	}
 	return g
 }
 
 type decl struct {
 	n      int
 	isType bool
+	rtype  string // static type of the first result
 }
 
 type pstate struct {
@@ -66,12 +83,30 @@ type pstate struct {
 	n      int
 	budget int
 	decls  []decl
+	// tidy: the program follows the documentation (documented contexts, documented argument
+	// shapes, plain names) so that most of it survives DSL execution and the validation and
+	// finalization code of goa sees unusual but executable designs
+	tidy   bool
+	ctx    []string // functions whose arguments are being drawn, outermost first
+	direct []int    // calls whose arguments are being drawn with no func() body in between
+	open   []int    // all calls being drawn
 }
 
 // Program draws program number id from r.
 func (g *Gen) Program(r *vc.Rand, id int) *prog.Program {
 	s := &pstate{g: g, r: r, budget: r.Range(1, MaxCalls)}
-	p := &prog.Program{ID: id}
+	s.tidy = r.Chance(1, 2)
+	if s.tidy {
+		s.budget = r.Range(4, MaxCalls)
+	}
+	p := &prog.Program{ID: id, Mode: "wild"}
+	if s.tidy {
+		p.Mode = "tidy"
+	}
+	if s.tidy {
+		s.tidyProgram(p)
+		return p
+	}
 	k := r.Range(1, 6)
 	for i := 0; i < k && s.budget > 0; i++ {
 		if r.Chance(1, 3) {
@@ -175,8 +210,10 @@ func (s *pstate) call(fn string, depth, argDepth int) *prog.Call {
 	sig := s.g.by[fn]
 	if len(sig.Results) > 0 {
 		// registered before the arguments are drawn: a body may refer to its own declaration (recursive types)
-		s.decls = append(s.decls, decl{c.N, isDataTypeResult(sig.Results[0])})
+		s.decls = append(s.decls, decl{c.N, isDataTypeResult(sig.Results[0]), sig.Results[0]})
 	}
+	s.ctx = append(s.ctx, fn)
+	defer func() { s.ctx = s.ctx[:len(s.ctx)-1] }()
 	for _, p := range sig.Params {
 		if !p.Variadic {
 			c.Args = append(c.Args, s.arg(p, fn, depth, argDepth))
